@@ -85,7 +85,10 @@ def declare(reg, eng):
                  raises={"Exception": {"when": []}},
                  effect_guards={
                      "rmtree": [("C20", "False")],                                   # job data is never deleted
-                     "unlink": [("C20", "issymlink(_arg0)")],                        # only links are removed
+                     "unlink": [("C20", "issymlink(_arg0)"),                         # only links are removed
+                                # once jobs are being examined (reachability under the new identifier is decided from what exists),
+                                # only a dangling link may still be removed: nothing already reachable becomes unreachable
+                                ("C20", "implies(maybe_effect('load_job'), not exists_path(_arg0))")],
                      "rename": [("C20", "fix and cleanup")],      # (the destination was tested absent before params.json is rewritten; disjointness of the temporary file and the destination is outside the path theory)
                      "symlink_to": [("C20", "fix and not cleanup and not exists_path(_arg0)")],
                      "json.dump": [("C20", "fix and cleanup")],
